@@ -257,7 +257,8 @@ def opKnn (j : Json) : Except String Json := do
   let M : Cost := match getOptNat j "maxDistI" with | some m => .fin m | none => .inf
   let ks ← getNatArr j "ks"
   let step := fun (acc : SSObj Cost × List Json) (k : Nat) =>
-    let r := ssQuery useLb M cands acc.1 k
+    -- `k = 0` encodes Python's `k=None`
+    let r := if k = 0 then ssQueryAll useLb M cands acc.1 else ssQuery useLb M cands acc.1 k
     (r.1, acc.2 ++ [Json.arr (r.2.map fun x => Json.arr #[costJ x.1, Json.num (x.2 : Nat)]).toArray])
   let out := ks.toList.foldl step ({ stored := none }, [])
   return Json.mkObj [("answers", Json.arr out.2.toArray)]
